@@ -230,9 +230,11 @@ func (c *expCtx) topic(t *Topic) {
 		c.topicService(t.Name, snake(t.Name), "publish", t.Messages, t.Name, nil)
 	case "upsert":
 		c.topicService(t.Name, snake(t.Name), "upsert", t.Messages, t.Name, []*Field{metaField("upsert", "UpsertMetadata")})
+	case "event":
+		c.topicService(t.Name, snake(t.Name), "event", t.Messages, t.Name, nil)
 	case "reqres":
-		c.topicService(t.Name+"Request", snake(t.Name), "request", []*TopicMessage{t.Request}, t.Name+"Request", []*Field{metaField("request", "RequestMetadata")})
-		c.topicService(t.Name+"Reply", snake(t.Name), "reply", []*TopicMessage{t.Reply}, t.Name+"Reply", []*Field{metaField("request", "RequestMetadata")})
+		c.topicService(t.Name+"Request", snake(t.Name), "request", append([]*TopicMessage{t.Request}, t.MoreRequests...), t.Name+"Request", []*Field{metaField("request", "RequestMetadata")})
+		c.topicService(t.Name+"Reply", snake(t.Name), "reply", append([]*TopicMessage{t.Reply}, t.MoreReplies...), t.Name+"Reply", []*Field{metaField("request", "RequestMetadata")})
 	}
 }
 
